@@ -63,7 +63,7 @@ def main():
                     break
         elif op == 'recuntil':
             mark = bytes.fromhex(a[1])
-            while not bytes(recorded).endswith(mark):
+            while bytes(recorded[-len(mark):]) != mark:
                 if not readsome():
                     break
         elif op == 'receof':
